@@ -328,8 +328,8 @@ def run_task(task, acc):
             acc.evaluations += 1
             explore.shape_counters(acc, cells)
             for kind in ('ljust', 'rjust', 'center'):
-                for width in range(0, L + 5):
-                    for fill in FILLS:
+                for width in list(range(0, L + 5)) + [L + 301, L + 600]:     # + pads that move change points beyond offset 256
+                    for fill in (FILLS if width <= L + 4 else FILLS[1:2]):
                         for inplace in (False, True):
                             if inplace and quick and fill not in (' ', ':'):
                                 continue      # quick tier: in-place variants with two of the six fills
